@@ -19,30 +19,31 @@ const (
 )
 
 type rtCfg struct {
-	Retain     uint
-	P          time.Duration
-	Senders    int
-	SendsEach  int
-	Think      bool
-	WriteErr   int
-	Busy       int
-	Lost       int
-	Inbound    int
-	Junk       int // datagrams that are no frames at all, sent between the indications
-	Reader     string
-	CloseEarly bool
-	Sticky     int
-	PCT        int
-	TimerLate  int
-	LateMax    time.Duration
-	Starve     int
-	StarveMax  time.Duration
-	Stall      int
-	StallMax   time.Duration
-	Storm      bool
-	SlowWrite  int // permille of the client's writes that stall inside the call
-	SlowMax    time.Duration
-	MaxSteps   int
+	Retain      uint
+	P           time.Duration
+	Senders     int
+	SendsEach   int
+	Think       bool
+	WriteErr    int
+	Busy        int
+	Lost        int
+	Inbound     int
+	Junk        int  // datagrams that are no frames at all, sent between the indications
+	LostOverlap bool // lost indications may arrive while an earlier resend is still going out
+	Reader      string
+	CloseEarly  bool
+	Sticky      int
+	PCT         int
+	TimerLate   int
+	LateMax     time.Duration
+	Starve      int
+	StarveMax   time.Duration
+	Stall       int
+	StallMax    time.Duration
+	Storm       bool
+	SlowWrite   int // permille of the client's writes that stall inside the call
+	SlowMax     time.Duration
+	MaxSteps    int
 }
 
 func (c rtCfg) String() string {
@@ -88,6 +89,10 @@ func drawRtCfg(e *Env) rtCfg {
 		c.Inbound = e.Choose("cfg.inbound", 4)
 		if shape >= 5 && shape != 9 {
 			c.Lost = e.Choose("cfg.lost13", 3) // resent messages are paced like any other
+			if c.Lost >= 2 && e.Choose("cfg.lostoverlap13", 2) == 0 {
+				c.LostOverlap = true // a second lost indication while the first resend is under way
+				c.Lost += e.Choose("cfg.lostmore13", 3)
+			}
 		}
 		c.CloseEarly = e.Choose("cfg.closeearly13", 5) == 0 // Close inside a busy window must not strand the senders
 	case "C14":
@@ -96,6 +101,7 @@ func drawRtCfg(e *Env) rtCfg {
 		c.WriteErr = []int{0, 0, 100, 300}[e.Choose("cfg.werr", 4)]
 		c.Inbound = e.Choose("cfg.inbound", 12)
 		c.Junk = e.Choose("cfg.junk", 4)
+		c.LostOverlap = c.Lost >= 2 && e.Choose("cfg.lostoverlap", 5) == 0 // (the resend oracle stops judging where resends overlap; deadlock freedom is still judged)
 		c.CloseEarly = e.Choose("cfg.closeearly", 4) == 0
 		if e.Choose("cfg.starve14", 4) == 0 {
 			c.Starve = []int{100, 300, 700}[e.Choose("cfg.starvep", 3)]
@@ -124,6 +130,13 @@ func drawRtCfg(e *Env) rtCfg {
 		c.Inbound = e.Choose("cfg.inbound", 12)
 	}
 	return c
+}
+
+// heldMsg is a message the application received, with what it looked like then.
+type heldMsg struct {
+	m   cemi.Message
+	was string
+	id  int
 }
 
 type rtSend struct {
@@ -170,6 +183,7 @@ type rtRun struct {
 	lockAt             []Stamp
 	lateSends          []*rtSend
 	postClose          []*rtSend // Sends issued right after Close returned
+	held               []heldMsg
 	settled            Stamp
 }
 
@@ -363,6 +377,7 @@ func (r *rtRun) reader() {
 			d.Msg = dump(m)
 		}
 		r.deliv = append(r.deliv, d)
+		r.held = append(r.held, heldMsg{m, dump(m), d.ID}) // the application keeps what it received
 		e.S.Logf("rdeliver id=%d", d.ID)
 	}
 }
@@ -404,7 +419,19 @@ func (r *rtRun) peerActions() {
 			}
 			id := r.newID()
 			r.inIDs = append(r.inIDs, id)
-			r.peerSend(mkRoutingInd(idCEMI(0x29, id)))
+			c0 := idCEMI(0x29, id)
+			switch e.Choose("wl.indshape", 4) {
+			case 1: // with additional information (a field the decoder handles on its own)
+				n := []int{1, 4, 40, 255}[e.Choose("wl.indinfo", 4)]
+				info := make([]byte, n)
+				for i := range info {
+					info[i] = byte(id + 3*i)
+				}
+				c0 = mkLData(0x29, 0xbc, 0xe0, 0x1105, uint16(id), 2, []byte{0, byte(id >> 8), byte(id)}, info)
+			case 2: // another priority, repeat flag, hop count (none of which the client may act on)
+				c0 = mkLData(0x29, uint8(0x90|e.Choose("wl.indprio", 4)<<2|e.Choose("wl.indlow", 4)), uint8(0x80|e.Choose("wl.indhop", 8)<<4), 0x1105, uint16(id), 2, []byte{0, byte(id >> 8), byte(id)}, nil)
+			}
+			r.peerSend(mkRoutingInd(c0))
 		case "junk":
 			// something undecodable right behind whatever came last: it must vanish without a trace
 			var b []byte
@@ -436,7 +463,7 @@ func (r *rtRun) peerActions() {
 		case "lost":
 			// keep lost indications isolated: the previous resend has certainly finished
 			gap := time.Duration(70*(c.Senders+1))*(c.P+time.Millisecond+c.SlowMax+c.StarveMax) + 400*time.Millisecond
-			if d := lastLost + gap - s.Now(); d > 0 {
+			if d := lastLost + gap - s.Now(); d > 0 && !c.LostOverlap {
 				s.SleepFor(d)
 			}
 			s.SleepFor(time.Duration(e.Choose("flt.lostgap", 60)) * time.Millisecond)
@@ -470,6 +497,12 @@ type rtTx struct {
 
 func checkRouter(r *rtRun) {
 	e, c := r.e, r.c
+	for _, h := range r.held {
+		if now := dump(h.m); now != h.was {
+			e.Violate("C14", "inbound-message-changed-later", "the routing indication id=%d handed to the application read %s when it arrived and reads %s at the end of the run", h.id, h.was, now)
+			break
+		}
+	}
 	if r.closed && r.closeRet.Seq == 0 {
 		e.Violate("C14", "close-hangs", "Router.Close invoked at %v never returned", r.closeInv.T)
 		r.closeRet = Stamp{T: 1 << 60, Seq: ^uint64(0) >> 1}
@@ -735,7 +768,7 @@ func checkC14(r *rtRun, txs []rtTx, rx []wireEv, byID map[int]*rtSend) {
 				ti++
 				continue
 			}
-			if txs[ti].Repeat {
+			if txs[ti].Repeat && !c.LostOverlap {
 				e.Violate("C14", "unsolicited-resend", "routing indication id=%d was transmitted again at %v although no routing-lost indication asked for it", txs[ti].ID, txs[ti].At.T)
 			}
 			push(txs[ti].ID)
@@ -743,6 +776,14 @@ func checkC14(r *rtRun, txs []rtTx, rx []wireEv, byID map[int]*rtSend) {
 		}
 	}
 	uncertain := false // an earlier resend was still running when a lost indication arrived: the statement's precondition is gone
+	if c.LostOverlap {
+		// the run lets lost indications arrive on top of each other on purpose (deadlock freedom,
+		// pacing): what is resent when is outside the statement ("and no earlier resend is still
+		// in progress")
+		lostRx = nil
+		uncertain = true
+		e.Probe("lost-indications-overlap:resend-window-not-judged")
+	}
 	for li, L := range lostRx {
 		if uncertain {
 			e.Probe("lost-overlapping-resend-skipped")
